@@ -77,9 +77,9 @@ theorem C15_outside_unaffected (A C : Items) (b₁ b₂ : Item) :
 /-- An unselected clause contributes nothing, whatever it contains (in particular a selected
     clause of a block nested in it, or property lines). -/
 theorem C15_unselected_contributes_nothing (pfx : List String) (e : Nat) (body rest : Items) (ee : Bool) :
-    parse ((Items.cons (.block pfx false e body (.fin ee)) rest).render 0) = .ok (rest.sem []) := by
+    parse ((Items.cons (.block pfx false e body (.fin ee 0 .nil)) rest).render 0) = .ok (rest.sem []) := by
   rw [C15_effect_iff_selected]
-  simp [Items.sem, Item.sem, Chain.sem]
+  simp [Items.sem, Item.sem, Chain.sem, Chain.tail]
 
 /-- What stands inside an unselected clause is irrelevant altogether — other nodes, other
     nested blocks, other truth values of the nested conditions, other indentation: the result
@@ -89,7 +89,7 @@ theorem C15_unselected_contents_irrelevant (pfx : List String) (e₁ e₂ : Nat)
     parse ((Items.cons (.block pfx false e₁ body₁ more) rest).render 0) =
     parse ((Items.cons (.block pfx false e₂ body₂ more) rest).render 0) := by
   rw [C15_effect_iff_selected, C15_effect_iff_selected]
-  simp [Items.sem, Item.sem]
+  simp [Items.sem, Item.sem, Chain.tail]
 
 /-- … and the machine does not even look at such a condition (fix 790a797: `CaseNode.parse`
     does not evaluate the expression when an enclosing case is unselected): in any state in
@@ -104,33 +104,45 @@ example : (match run St.init [⟨0, [], .case false⟩] with
     | .ok (s, _) => falseCase (closeGE 2 s.state)
     | .error _ => false) = true := by decide
 
-/-- Only the first true clause counts: after a true clause nothing else of the block does. -/
-theorem C15_first_true_only (pfx : List String) (e : Nat) (body rest : Items) (more : Chain) :
-    parse ((Items.cons (.block pfx true e body more) rest).render 0) = .ok (body.sem pfx ++ rest.sem []) := by
+/-- Lines written after an explicit `@end` but indented deeper than it are outside the block:
+    they take effect whatever the truth values of the block's clauses are, under the name of the
+    block's parent (the `@N` of the `@end` line they hang below is cleaned from their names). -/
+theorem C15_lines_after_end_outside_block (pfx : List String) (c : Bool) (e te : Nat)
+    (body tr rest : Items) :
+    parse ((Items.cons (.block pfx c e body (.fin true te tr)) rest).render 0) =
+      .ok ((if c then body.sem pfx else []) ++ tr.sem pfx ++ rest.sem []) := by
   rw [C15_effect_iff_selected]
-  simp [Items.sem, Item.sem]
+  cases c <;> simp [Items.sem, Item.sem, Chain.sem, Chain.tail]
+
+/-- Only the first true clause counts: after a true clause nothing else of the block does
+    (`more.tail`: what is written after its explicit `@end`, outside the block). -/
+theorem C15_first_true_only (pfx : List String) (e : Nat) (body rest : Items) (more : Chain) :
+    parse ((Items.cons (.block pfx true e body more) rest).render 0) =
+      .ok (body.sem pfx ++ more.tail pfx ++ rest.sem []) := by
+  rw [C15_effect_iff_selected]
+  simp [Items.sem, Item.sem, Chain.tail]
 
 /-- Two neighbouring blocks in compact form with different parents are two blocks, although
     no `@end`, node or group stands between them: a true clause of the first does not shadow
     the second. -/
 theorem C15_compact_neighbours_independent (p q : List String) (hpq : p ≠ q) (e₁ e₂ : Nat)
     (b₁ b₂ rest : Items) (m₂ : Chain) :
-    parse ((Items.cons (.block p true e₁ b₁ (.fin false))
+    parse ((Items.cons (.block p true e₁ b₁ (.fin false 0 .nil))
              (.cons (.block q true e₂ b₂ m₂) rest)).render 0)
-      = .ok (b₁.sem p ++ b₂.sem q ++ rest.sem []) ∧
+      = .ok (b₁.sem p ++ b₂.sem q ++ m₂.tail q ++ rest.sem []) ∧
     (needsEnd (some p) (some q) = false) := by
   refine ⟨?_, by simp [needsEnd, hpq]⟩
   rw [C15_effect_iff_selected]
-  simp [Items.sem, Item.sem]
+  simp [Items.sem, Item.sem, Chain.tail]
 
 /-- A property line written at the indent of a block that was closed only by indentation is
     outside the block: it takes effect whatever the truth value of the block's clause. -/
 theorem C15_property_after_block (c : Bool) (e : Nat) (body rest : Items) (pk : PKind) (n : String) (v : Int) :
     parse ((Items.cons (.node n false v [])
-             (.cons (.block [] c e body (.fin false)) (.cons (.prop pk) rest))).render 0)
+             (.cons (.block [] c e body (.fin false 0 .nil)) (.cons (.prop pk) rest))).render 0)
       = .ok (Eff.node [n] false v :: ((if c then body.sem [] else []) ++ Eff.prop pk :: rest.sem [])) := by
   rw [C15_effect_iff_selected]
-  cases c <;> simp [Items.sem, Item.sem, Chain.sem]
+  cases c <;> simp [Items.sem, Item.sem, Chain.sem, Chain.tail]
 
 /-- Import lines and directives inside an unselected clause are inert: an import whose source
     group exists only inside that clause, an import of something that does not exist at all
@@ -139,7 +151,7 @@ theorem C15_unselected_imports_and_directives_inert (pfx : List String) (e e' : 
     (src : List String) (nd : Option String) (gbody rest : Items) (ee : Bool) :
     parse ((Items.cons (.block pfx false e
         (.cons (.group g e' gbody) (.cons (.imp (pfx ++ [g]) none) (.cons (.imp src nd) (.cons (.unit u true) .nil))))
-        (.fin ee)) rest).render 0) = .ok (rest.sem []) :=
+        (.fin ee 0 .nil)) rest).render 0) = .ok (rest.sem []) :=
   C15_unselected_contributes_nothing pfx e _ rest ee
 
 /-! ## Several parses on one environment -/
@@ -172,11 +184,11 @@ example : (St.mk [(0, [.cs 1]), (2, [.nm "a"])] [] 3 2).state = [] := rfl
     de-indentation, a forced `@end`, compact neighbours and property lines — rendered, run
     and compared. -/
 def exampleProgram : Items :=
-  .cons (.block [] false 0 (.cons (.block [] true 1 (.cons (.node "b" false 2 []) .nil) (.fin false)) .nil)
-           (.els 0 (.cons (.node "a" false 1 [(1, .constant)]) .nil) false))
-  (.cons (.block [] true 0 (.cons (.node "c" false 3 []) .nil) (.fin false))
-  (.cons (.block ["w"] true 0 (.cons (.node "n" false 4 []) .nil) (.fin false))
-  (.cons (.block ["v"] false 0 (.cons (.node "n" false 5 []) .nil) (.fin false))
+  .cons (.block [] false 0 (.cons (.block [] true 1 (.cons (.node "b" false 2 []) .nil) (.fin false 0 .nil)) .nil)
+           (.els 0 (.cons (.node "a" false 1 [(1, .constant)]) .nil) false 0 .nil))
+  (.cons (.block [] true 0 (.cons (.node "c" false 3 []) .nil) (.fin false 0 .nil))
+  (.cons (.block ["w"] true 0 (.cons (.node "n" false 4 []) .nil) (.fin false 0 .nil))
+  (.cons (.block ["v"] false 0 (.cons (.node "n" false 5 []) .nil) (.fin false 0 .nil))
   (.cons (.prop (.tags "t")) .nil))))
 
 example : (match parse (exampleProgram.render 0) with | .ok o => some o | .error _ => none)
